@@ -6,12 +6,13 @@ import DirectVerif.Model.Train
 namespace DirectVerif.Bridge.C15
 open DirectVerif DirectVerif.Ckpt DirectVerif.Train DirectVerif.Gen.C15
 
-/-- the order of the file operations of `Checkpointer.save` = the table `Ckpt.saveOps` instantiates -/
-theorem save_table_eq : saveStmts = Ckpt.saveTable := by decide
-
-/-- "every final name is only ever the target of a replace; `last_model.txt` is replaced after
-`model_<it>.pt`; each temporary is opened, written, closed, renamed, in this order" -/
+/-- the statement table of `Checkpointer.save` read from /repo is **well formed**: every final name is only ever the
+target of a replace from its completely written, closed temporary; `last_model.txt` is replaced after
+`model_<it>.pt` (`Props/C15.lean : crash_safe_all_wf_tables` then applies — to any harmless reordering as well) -/
 theorem save_table_wf : wfSave saveStmts = true := by decide
+
+/-- … and satisfies the structural reading of well-formedness -/
+theorem save_table_wf_struct : wfSaveStruct saveStmts = true := by decide
 
 /-- `start_iter = checkpoint["iteration"] + 1` -/
 theorem start_iter_eq (label : Int) : start_iter label = resumeStart label := by
